@@ -547,6 +547,9 @@ class Sym:
 
     # ---- comparisons
     def _cmp(self, o, op):
+        if isinstance(o, (float, _np.floating)) and not math.isfinite(float(o)):
+            # engine reals are finite: comparisons with +-inf / nan are decided (IEEE semantics)
+            return bool(op(0.0, float(o)))
         o = Sym.lift(o)
         if o is None:
             return NotImplemented
